@@ -45,9 +45,11 @@ Definition bst_init (p : list Q) : bcfg :=
   let k := (length p - 1)%nat in
   {| b_ptr := 1; b_stack := []; b_cum := 0; b_arr := repeat 0 k ++ p |}.
 
-(* the whole array after the loop (None: the code raises, which it does for a vector of length 1) *)
+(* the whole array after the loop.  `if k == 0: return bst` is the repair `fix: BinarySearchTree raised
+   IndexError for a single state` (before it the loop popped an empty deque: bst_run gives None for k = 0). *)
 Definition bst_fill (p : list Q) : option (list Q) :=
-  let k := (length p - 1)%nat in bst_run (4 * k + 4) k (bst_init p).
+  let k := (length p - 1)%nat in
+  if (k =? 0)%nat then Some (b_arr (bst_init p)) else bst_run (4 * k + 4) k (bst_init p).
 
 (* what create_binary_search_tree returns: bst[: k + 1] *)
 Definition create_bst (p : list Q) : option (list Q) :=
